@@ -288,7 +288,11 @@ def checkAcc (d : DS) (s : St) (o : Obs) (t : Toks) (mi : Option (Bytes × Bool)
     let isSecp := tget t "pkkey" == hex kSecp
     let want := if isSecp then "k256:1,libsecp:1,ed:0,comb:1"
       else if (Map.lookup r.content kSecp).isNone then "k256:0,libsecp:0,ed:1,comb:1" else impl
-    if impl == want then s.chk else s.prop "C11" "backends_interchangeable_schemes_isolated" s!"xdec={impl} want={want}"
+    -- 65-byte SEC1 public keys are outside the property's quantifier
+    let sec1Long := match pubEntry r.content kSecp with
+      | .ok b => b.length == 65
+      | .error _ => false
+    if sec1Long || impl == want then s.chk else s.prop "C11" "backends_interchangeable_schemes_isolated" s!"xdec={impl} want={want}"
   c s "conv" "1"
 
 /-! ### builder calls / ops -/
@@ -591,6 +595,9 @@ def handleBuild (d : DS) (s : St) (t : Toks) (o : Toks) (rec : Option Obs) : St 
       | .ok r => ("ok", some r)
       | .err e => (s!"err:{enrErrStr e}", none)
       | .panic _ => ("panic", none)
+    let mres := match prep with
+      | .ok _ => if log.isEmpty then "reaches-signer" else mres
+      | .error _ => mres
     let s := s.cov s!"build/{d.name}/{resKind res}/{(b.content.length)}"
     let s := s.cmp "build.res" (resKind mres) (resKind res)
     let s := if resKind res == "ExceedsMaxSize" || resKind mres == "ExceedsMaxSize" then
@@ -605,11 +612,12 @@ def handleBuild (d : DS) (s : St) (t : Toks) (o : Toks) (rec : Option Obs) : St 
 
 /-- The error kinds an update may report (C08: "when several causes apply, any of them"): every
     cause is evaluated on its own, whatever the order in which the code checks them. -/
-def admissibleErrs (d : DS) (r : Record) (op : Op d.S) (pk : d.S.PK) (oracle : Option Bytes) (failInjected : Bool) :
-    List String :=
+def admissibleErrs (d : DS) (r : Record) (op : Op d.S) (pk : d.S.PK) (oracle : Option Bytes)
+    (signerCalled signerFailed : Bool) : List String :=
   let S := d.S
   let seqMax := if op.isSetSeq then [] else if r.seq + 1 < 2 ^ 64 then [] else ["SequenceNumberTooHigh"]
-  let fault := if failInjected then ["SigningError"] else []
+  -- a signing failure is a cause only when the signer was really asked and really failed
+  let fault := if signerFailed then ["SigningError"] else []
   -- value errors of every pair / value handed in
   let valueErrs : List String := match op with
     | .insertRaw k raw => (match checkReserved k raw with | .error e => [enrErrStr e] | .ok _ => [])
@@ -628,15 +636,11 @@ def admissibleErrs (d : DS) (r : Record) (op : Op d.S) (pk : d.S.PK) (oracle : O
       | .ok _ => []
     let pre := errOf (prepareG S r op pk false) ++ errOf (prepareG S r op pk true) ++
       errOf (prepareG S rLow op pk false) ++ errOf (prepareG S rLow op pk true)
-    let final := match prepareG S rLow op pk false with
-      | .ok p =>
-        let sg := match oracle with
-          | some g => g
-          | none => r.sig
+    let final := match prepareG S rLow op pk false, oracle with
+      | .ok p, some sg =>
         let n : Record := { p.enr with sig := sg, nodeId := nodeIdOf S pk }
-        (if n.size > MAX_ENR_SIZE then ["ExceedsMaxSize"] else []) ++
-          (if oracle.isNone then ["SigningError"] else [])
-      | .error _ => []
+        if signerCalled && n.size > MAX_ENR_SIZE then ["ExceedsMaxSize"] else []
+      | _, _ => []
     pre ++ final ++ seqMax ++ fault
 
 /-- one `step` with its `out` and `rec` lines -/
@@ -676,13 +680,16 @@ def handleStep (d : DS) (s : St) (t : Toks) (o : Toks) (after : Obs) : St :=
         | .panic _ => "panic"
       let role := if signer == 0 then "own" else if signer == 1 then "other" else "third"
       let s := s.cov s!"step/{d.name}/{opn}/{resKind res}/{role}/{tget t "fail"}"
+      -- the model needs the signer's answer; if the implementation never asked the signer although
+      -- the model's update reaches the signing call, the model's outcome is "reaches the signer"
+      let mres := if req.isSome && log.isEmpty then "reaches-signer" else mres
       let s := s.cmp "step.res" (resKind mres) (resKind res)
       -- C08: the reported error kind matches one of the causes that apply; success only without a cause
-      let adm := admissibleErrs d r op pk oracle (tget t "fail" == "1")
+      let adm := admissibleErrs d r op pk oracle (!log.isEmpty) (log.any (·.2.isNone))
       let s := if resClass res == "err" then
           (if adm.contains (resKind res) then s.chk
            else s.prop "C08" "error_kind_matches_a_cause" s!"op={opn} impl={resKind res} admissible={adm}")
-        else if resClass res == "ok" && resClass mres == "err" then
+        else if resClass res == "ok" && resClass mres == "err" && mres != "reaches-signer" then
           s.prop "C08" "call_with_a_failure_cause_is_refused" s!"op={opn} model={mres}"
         else s
       let s := match mo with
